@@ -31,7 +31,7 @@ REACH = ['gambit.cli.query:query_cmd', 'gambit.cli.common:get_sequence_files', '
 
 def shards(tier, seed):
 	n = 10 if tier == 'quick' else 40
-	out = [dict(name=f'batch-{i}', kind='batch', sub=i, nworlds=1 if tier == 'quick' else 3, ncmds=14 if tier == 'quick' else 40) for i in range(n)]
+	out = [dict(name=f'batch-{i}', kind='batch', sub=i, nworlds=2 if tier == 'quick' else 4, ncmds=8 if tier == 'quick' else 30) for i in range(n)]
 	out.append(dict(name='console-script', kind='console', ncmds=4 if tier == 'quick' else 20))
 	return out
 
@@ -242,6 +242,24 @@ def run_batch(sh, ctx):
 				ctx.violation('output-unparseable', f'{fmt} output cannot be parsed: {type(e).__name__}: {e}', w_)
 				continue
 			compare(ctx, qw, fmt, strict, rows, labels, qis, w_, f'{channel} {fmt}', alone)
+			# history independence: the same command in a fresh console-script process must write the same bytes (this process has run many
+			# other commands on other databases before) - timestamps excluded
+			if ci % 4 == 1 and fmt in ('csv', 'json'):
+				out2 = qw.dir / f'fresh{ci}.{fmt}'
+				args2 = [str(out2) if a is out else a for a in args]
+				c2, so2, se2, _ = run_cmd(args2, console=True, cwd=cwd)
+				ctx.count('fresh_process_differentials')
+				if c2 != 0:
+					ctx.violation('command-fails', f'same command in a fresh process exited {c2}: {se2[-200:]}', w_)
+				else:
+					a_, b_ = open(out, newline='').read(), open(out2, newline='').read()
+					if fmt == 'json':
+						ja, jb = json.loads(a_), json.loads(b_)
+						for j_ in (ja, jb):
+							j_.pop('timestamp', None)
+						a_, b_ = json.dumps(ja, sort_keys=True), json.dumps(jb, sort_keys=True)
+					if a_ != b_:
+						ctx.violation('output-depends-on-process-history', f'{fmt} output of the same command differs between this long-lived process and a fresh process', dict(w_, inproc=a_[:300], fresh=b_[:300]))
 		# ---- chunk size through the API -----------------------------------------------------------------------------
 		from gambit.db import ReferenceDatabase
 		from gambit.query import query, QueryParams
@@ -295,7 +313,7 @@ def run_shard(sh, ctx):
 def finalize(merged, tier, seed, inconclusive):
 	c = merged['counters']
 	need = ['alone_runs', 'channel:positional', 'channel:listfile-rel', 'channel:listfile-abs', 'channel:sigfile-create', 'channel:sigfile-oracle', 'format:csv', 'format:json', 'format:archive',
-	        'format:archive/strict', 'cores:16', 'cores:None', 'progress:True', 'batches_with_duplicate_labels', 'batches_with_same_genome_twice', 'batches_with_label_collision_of_different_genomes', 'api_chunk_runs', 'console_script_runs']
+	        'format:archive/strict', 'cores:16', 'cores:None', 'progress:True', 'batches_with_duplicate_labels', 'batches_with_same_genome_twice', 'batches_with_label_collision_of_different_genomes', 'api_chunk_runs', 'console_script_runs', 'fresh_process_differentials']
 	for n in need:
 		if c.get(n, 0) == 0:
 			inconclusive.append(f'class never observed: {n}')
